@@ -1100,7 +1100,7 @@ pub(crate) fn c18_truncate_fresh(unify: bool, reserved: u32, n: usize) {
 fn c18_truncate_fresh_unify_r5() {
   c18_truncate_fresh(true, 5, 96);
 }
-// @h props=C18 tier=quick timeout=900 mem=16 bounds=CAP=64,plain,reserved=3,nothing-allocated,n=40
+// @h props=C18 tier=quick timeout=1200 mem=28 bounds=CAP=64,plain,reserved=3,nothing-allocated,n=40
 #[kani::proof]
 #[kani::unwind(10)]
 fn c18_truncate_fresh_plain_r3() {
